@@ -96,15 +96,17 @@ CHECKS = {
               'SS_CG and pattern tables regenerated from the source: the slicing loop equals direct indexing into the '
               'reconciled sequence over the SELECTED molecules (unselected get nothing), the three documented length '
               'cases and only those succeed; conversion preserves length and maps non-helical classes by the table for '
-              'every string (invariant: every pattern keeps its dot positions); the helical run rule is proved for every '
-              'string of length <= 15 by an exhaustive kernel computation over all helix/non-helix patterns lifted to class '
-              'strings (convert_run_rule_partial). Tie: real AnnotateResidues and convert_dssp_to_martini compared with '
-              'model and spec inside Coq.'),
+              'every string (invariant: every pattern keeps its dot positions); the helical run rule is proved for strings of '
+              'EVERY length (convert_run_rule): the nine patterns have the shapes .h. / .h / h. , on a string of '
+              'dot-terminated segments str.replace and the while-loop act segment by segment (fuel-free replace, a pass '
+              'function per shape, a decreasing count for the loop), and the composition on a run of n H is the documented '
+              'text; an exhaustive kernel computation up to length 15 is kept as a cross-check. Tie: real '
+              'AnnotateResidues and convert_dssp_to_martini compared with model and spec inside Coq.'),
         design_ref='DESIGN.md section 5, C17',
         note=('Trusted: Coq kernel + vm_compute; translator for the two tables; model of Python str.replace '
-              '(leftmost, non-overlapping) validated by the correspondence runs; the run rule beyond length 15 is '
-              'validated (random runs up to 12 per helix, strings up to ~45), not proved.'),
-        technique='Coq proof (loop/indexing refinement by induction; dot-mask invariant of the rewriting; bounded exhaustive kernel evaluation for the run rule) + tables regenerated from source + in-Coq correspondence'),
+              '(leftmost, non-overlapping; while pattern in s) validated by the correspondence runs (random runs up to 12 '
+              'per helix, strings up to ~45).'),
+        technique='Coq proof (loop/indexing refinement by induction; dot-mask invariant of the rewriting; segment-wise characterisation of str.replace for the three pattern shapes and induction over runs for the helix rule) + tables regenerated from source + in-Coq correspondence'),
     'C09': dict(
         category='proof',
         text=('Coq theorems over exact rationals about a model of do_average_bead / DoAverageBead: the position is '
